@@ -286,8 +286,13 @@ func rulesC18(c *Ctx) {
 			st := p.StateAt(fn, sel)
 			obj := p.ObjOf(id)
 			ok = st != nil && p.Holds(st, p.NilAtom(false, func(t Term) bool {
-				tid, isI := unparen(t.E).(*ast.Ident)
-				return isI && p.ObjOf(tid) == obj && !t.Frozen[obj]
+				// the parameter itself, or (through the binding of a nil-safe predicate such as IsEmpty) its alias
+				for _, ct := range p.chain(t) {
+					if tid, isI := unparen(ct.E).(*ast.Ident); isI && p.ObjOf(tid) == obj && !ct.Frozen[obj] {
+						return true
+					}
+				}
+				return false
 			}))
 			if !ok && !ast.IsExported(fn.Decl.Name.Name) {
 				// unexported helper: every caller must pass a non-nil value
@@ -456,7 +461,82 @@ func (p *Prog) freshValue(e ast.Expr) bool {
 		case "resources.NewResource", "resources.Resource.Clone", "resources.NewResourceFromMap":
 			return p.CalleeName(x) != "resources.NewResourceFromMap"
 		}
+		// any other constructor of the package: a function every return of which yields a value it created itself
+		if callee := p.Callee(x); callee != nil {
+			if cf := p.FuncOf[callee]; cf != nil && p.InPkg(cf, "resources") {
+				return p.returnsFresh(cf, 0)
+			}
+		}
 	}
+	return false
+}
+
+// returnsFresh: every return of fn yields a composite literal, make(), a fresh constructor result, or a local
+// that is only ever assigned such values.
+func (p *Prog) returnsFresh(fn *Func, depth int) bool {
+	if fn == nil || fn.Decl.Body == nil || depth > 3 {
+		return false
+	}
+	if p.freshFn == nil {
+		p.freshFn = map[*Func]int{}
+	}
+	switch p.freshFn[fn] {
+	case 1:
+		return true
+	case 2, 3:
+		return false // not fresh, or in progress (recursion)
+	}
+	p.freshFn[fn] = 3
+	ok, n := true, 0
+	ast.Inspect(fn.Decl.Body, func(nd ast.Node) bool {
+		if _, isLit := nd.(*ast.FuncLit); isLit {
+			return false
+		}
+		rs, isRet := nd.(*ast.ReturnStmt)
+		if !isRet || len(rs.Results) == 0 {
+			return true
+		}
+		n++
+		r := unparen(rs.Results[0])
+		if p.freshValue(r) {
+			return true
+		}
+		id, isID := r.(*ast.Ident)
+		if !isID {
+			ok = false
+			return true
+		}
+		obj := p.ObjOf(id)
+		assigned := 0
+		ast.Inspect(fn.Decl.Body, func(m ast.Node) bool {
+			as, isA := m.(*ast.AssignStmt)
+			if !isA {
+				return true
+			}
+			for i, l := range as.Lhs {
+				if lid, isL := unparen(l).(*ast.Ident); isL && p.ObjOf(lid) == obj {
+					assigned++
+					rhs := as.Rhs[0]
+					if len(as.Rhs) == len(as.Lhs) {
+						rhs = as.Rhs[i]
+					}
+					if !p.freshValue(rhs) {
+						ok = false
+					}
+				}
+			}
+			return true
+		})
+		if assigned == 0 {
+			ok = false
+		}
+		return true
+	})
+	if ok && n > 0 {
+		p.freshFn[fn] = 1
+		return true
+	}
+	p.freshFn[fn] = 2
 	return false
 }
 
